@@ -10,6 +10,7 @@ package mongodb
 //    document of a key is exactly the JSON view handed in plus its version.
 
 import (
+	"github.com/orda-io/orda/client/pkg/model"
 	"github.com/orda-io/orda/client/pkg/vf"
 	"github.com/orda-io/orda/server/constants"
 	"github.com/orda-io/orda/server/schema"
@@ -196,4 +197,35 @@ func VF_Repo_Purge() {
 	y, _ := r.GetClient(ctx, "Y")
 	vf.Assert(x == nil, "C17 reset removes the clients of that collection")
 	vf.Assert(y != nil, "C17 reset leaves another collection's clients alone")
+}
+
+// VF_Repo_OperationRoundTrip (C14, store part): an operation with symbolic
+// identifier fields, any operation type and a body containing unusual
+// characters, stored through the real InsertOperations (OperationDoc, BSON
+// codec model, driver model) and read back through the real GetOperations,
+// is the same operation: identifier, type and body bytes.
+func VF_Repo_OperationRoundTrip() {
+	r := VFNewRealRepository()
+	ctx := vfCtx()
+	era, lam, seq := vf.U32("era"), vf.U64("lamport"), vf.U64("seq")
+	sseq := vf.U64("sseq")
+	vf.Assume(vf.All(sseq >= 1, sseq < 1<<62))
+	types := []model.TypeOfOperation{model.TypeOfOperation_COUNTER_SNAPSHOT, model.TypeOfOperation_COUNTER_INCREASE,
+		model.TypeOfOperation_MAP_PUT, model.TypeOfOperation_MAP_REMOVE, model.TypeOfOperation_LIST_INSERT, model.TypeOfOperation_LIST_DELETE,
+		model.TypeOfOperation_LIST_UPDATE, model.TypeOfOperation_DOC_OBJ_PUT, model.TypeOfOperation_DOC_OBJ_RMV, model.TypeOfOperation_DOC_ARR_INS,
+		model.TypeOfOperation_DOC_ARR_DEL, model.TypeOfOperation_DOC_ARR_UPD, model.TypeOfOperation_TRANSACTION, model.TypeOfOperation_ERROR,
+		model.TypeOfOperation_DOC_SNAPSHOT}
+	typ := types[vf.Choice("type", len(types))]
+	bodies := []string{`{"Delta":1}`, `{"K":"q\"b\\s/:~\n\t","V":"ctl\u0007\u000b\u0000\u001c\u007f"}`, "{\"V\":[\"é中\U0001F600\U000E0001\",{}]}", ``}
+	body := []byte(bodies[vf.Choice("body", len(bodies))])
+	cuid := vf.UID("cuid")
+	op := &model.Operation{ID: &model.OperationID{Era: era, Lamport: lam, CUID: cuid, Seq: seq}, OpType: typ, Body: body}
+	vf.Assert(r.InsertOperations(ctx, []interface{}{schema.NewOperationDoc(op, "D1", sseq, 1)}) == nil, "C14 storing an operation succeeds")
+	ops, sseqs, err := r.GetOperations(ctx, "D1", sseq, constants.InfinitySseq)
+	vf.Reach("read-back")
+	vf.Assert(err == nil && len(ops) == 1 && len(sseqs) == 1, "C14 the stored operation is read back")
+	g := ops[0]
+	vf.Assert(vf.All(g.ID.Era == era, g.ID.Lamport == lam, g.ID.Seq == seq, g.ID.CUID == cuid, sseqs[0] == sseq), "C14 the identifier survives the store")
+	vf.Assert(g.OpType == typ, "C14 the operation type survives the store")
+	vf.Assert(string(g.Body) == string(body), "C14 the body survives the store byte for byte")
 }
